@@ -7,9 +7,12 @@ import (
 	"os"
 	"path/filepath"
 	"runtime"
+	"math"
 	"sort"
+	"strconv"
 	"strings"
 	"sync"
+	"unicode/utf8"
 
 	NoKV "github.com/feichai0017/NoKV"
 	"github.com/feichai0017/NoKV/pb"
@@ -19,6 +22,31 @@ import (
 )
 
 // ---- replayable description of a case ----
+
+// U64 is a uint64 that survives a JSON round trip through float64 (replay files): values above
+// 2^53 are written as strings; both forms are read.
+type U64 uint64
+
+func (u U64) MarshalJSON() ([]byte, error) {
+	if u > 1<<53 {
+		return []byte(`"` + strconv.FormatUint(uint64(u), 10) + `"`), nil
+	}
+	return []byte(strconv.FormatUint(uint64(u), 10)), nil
+}
+
+func (u *U64) UnmarshalJSON(b []byte) error {
+	t := strings.Trim(string(b), `"`)
+	if f, err := strconv.ParseUint(t, 10, 64); err == nil {
+		*u = U64(f)
+		return nil
+	}
+	f, err := strconv.ParseFloat(t, 64)
+	if err != nil {
+		return err
+	}
+	*u = U64(f)
+	return nil
+}
 
 type Mut struct {
 	Op  int    `json:"op"` // pb.Mutation_Op
@@ -32,15 +60,15 @@ type Req struct {
 	Muts    []Mut    `json:"muts,omitempty"`
 	Keys    []string `json:"keys,omitempty"`
 	Primary string   `json:"primary,omitempty"`
-	Start   uint64   `json:"start,omitempty"`
-	Commit  uint64   `json:"commit,omitempty"`
-	TTL     uint64   `json:"ttl,omitempty"`
-	MinC    uint64   `json:"minc,omitempty"`
-	Current uint64   `json:"current,omitempty"`
-	Caller  uint64   `json:"caller,omitempty"`
+	Start   U64   `json:"start,omitempty"`
+	Commit  U64   `json:"commit,omitempty"`
+	TTL     U64   `json:"ttl,omitempty"`
+	MinC    U64   `json:"minc,omitempty"`
+	Current U64   `json:"current,omitempty"`
+	Caller  U64   `json:"caller,omitempty"`
 	RB      bool     `json:"rb,omitempty"`
 	Key     string   `json:"key,omitempty"`
-	Version uint64   `json:"version,omitempty"`
+	Version U64   `json:"version,omitempty"`
 	Limit   uint32   `json:"limit,omitempty"`
 	Incl    bool     `json:"incl,omitempty"`
 }
@@ -51,6 +79,60 @@ type PercoDesc struct {
 	Gen  string   `json:"gen,omitempty"`
 	// Shared: the case ran on a DB that already held (smaller) keys of earlier cases.
 	Shared bool `json:"shared,omitempty"`
+}
+
+// Keys and values are raw byte strings; JSON cannot carry invalid UTF-8, so a PercoDesc is written
+// with every non-UTF-8 string as "hex:<hex>" and read back accordingly (replay files stay exact).
+func encS(x string) string {
+	if utf8.ValidString(x) && !strings.HasPrefix(x, "hex:") {
+		return x
+	}
+	return "hex:" + hex.EncodeToString([]byte(x))
+}
+
+func decS(x string) string {
+	if strings.HasPrefix(x, "hex:") {
+		if b, err := hex.DecodeString(x[4:]); err == nil {
+			return string(b)
+		}
+	}
+	return x
+}
+
+func (d PercoDesc) mapStrings(f func(string) string) PercoDesc {
+	ml := func(xs []string) []string {
+		if xs == nil {
+			return nil
+		}
+		out := make([]string, len(xs))
+		for i, x := range xs {
+			out[i] = f(x)
+		}
+		return out
+	}
+	o := PercoDesc{Keys: ml(d.Keys), Gen: d.Gen, Shared: d.Shared}
+	for _, r := range d.Reqs {
+		q := r
+		q.Keys, q.Primary, q.Key = ml(r.Keys), f(r.Primary), f(r.Key)
+		q.Muts = nil
+		for _, m := range r.Muts {
+			q.Muts = append(q.Muts, Mut{Op: m.Op, Key: f(m.Key), Val: f(m.Val)})
+		}
+		o.Reqs = append(o.Reqs, q)
+	}
+	return o
+}
+
+type percoDescJSON PercoDesc
+
+func (d PercoDesc) MarshalJSON() ([]byte, error) { return json.Marshal(percoDescJSON(d.mapStrings(encS))) }
+func (d *PercoDesc) UnmarshalJSON(b []byte) error {
+	var j percoDescJSON
+	if err := json.Unmarshal(b, &j); err != nil {
+		return err
+	}
+	*d = PercoDesc(j).mapStrings(decS)
+	return nil
 }
 
 func bs(keys []string) [][]byte {
@@ -73,24 +155,24 @@ func (r Req) pb() *pb.Request {
 			ms = append(ms, mm)
 		}
 		return &pb.Request{CmdType: pb.CmdType_CMD_PREWRITE, Cmd: &pb.Request_Prewrite{Prewrite: &pb.PrewriteRequest{
-			Mutations: ms, PrimaryLock: []byte(r.Primary), StartVersion: r.Start, LockTtl: r.TTL, MinCommitTs: r.MinC}}}
+			Mutations: ms, PrimaryLock: []byte(r.Primary), StartVersion: uint64(r.Start), LockTtl: uint64(r.TTL), MinCommitTs: uint64(r.MinC)}}}
 	case "cm":
 		return &pb.Request{CmdType: pb.CmdType_CMD_COMMIT, Cmd: &pb.Request_Commit{Commit: &pb.CommitRequest{
-			Keys: bs(r.Keys), StartVersion: r.Start, CommitVersion: r.Commit}}}
+			Keys: bs(r.Keys), StartVersion: uint64(r.Start), CommitVersion: uint64(r.Commit)}}}
 	case "rb":
 		return &pb.Request{CmdType: pb.CmdType_CMD_BATCH_ROLLBACK, Cmd: &pb.Request_BatchRollback{BatchRollback: &pb.BatchRollbackRequest{
-			Keys: bs(r.Keys), StartVersion: r.Start}}}
+			Keys: bs(r.Keys), StartVersion: uint64(r.Start)}}}
 	case "rs":
 		return &pb.Request{CmdType: pb.CmdType_CMD_RESOLVE_LOCK, Cmd: &pb.Request_ResolveLock{ResolveLock: &pb.ResolveLockRequest{
-			Keys: bs(r.Keys), StartVersion: r.Start, CommitVersion: r.Commit}}}
+			Keys: bs(r.Keys), StartVersion: uint64(r.Start), CommitVersion: uint64(r.Commit)}}}
 	case "ck":
 		return &pb.Request{CmdType: pb.CmdType_CMD_CHECK_TXN_STATUS, Cmd: &pb.Request_CheckTxnStatus{CheckTxnStatus: &pb.CheckTxnStatusRequest{
-			PrimaryKey: []byte(r.Primary), LockTs: r.Start, CurrentTs: r.Current, CallerStartTs: r.Caller, RollbackIfNotExist: r.RB}}}
+			PrimaryKey: []byte(r.Primary), LockTs: uint64(r.Start), CurrentTs: uint64(r.Current), CallerStartTs: uint64(r.Caller), RollbackIfNotExist: r.RB}}}
 	case "get":
-		return &pb.Request{CmdType: pb.CmdType_CMD_GET, Cmd: &pb.Request_Get{Get: &pb.GetRequest{Key: []byte(r.Key), Version: r.Version}}}
+		return &pb.Request{CmdType: pb.CmdType_CMD_GET, Cmd: &pb.Request_Get{Get: &pb.GetRequest{Key: []byte(r.Key), Version: uint64(r.Version)}}}
 	case "scan":
 		return &pb.Request{CmdType: pb.CmdType_CMD_SCAN, Cmd: &pb.Request_Scan{Scan: &pb.ScanRequest{
-			StartKey: []byte(r.Key), Limit: r.Limit, Version: r.Version, IncludeStart: r.Incl}}}
+			StartKey: []byte(r.Key), Limit: r.Limit, Version: uint64(r.Version), IncludeStart: r.Incl}}}
 	}
 	panic("bad request kind " + r.T)
 }
@@ -410,7 +492,9 @@ func genPlans(c *corr.Ctx, keys []string, ntx int) []txnPlan {
 		if a > b {
 			a, b = b, a
 		}
-		p := txnPlan{start: a, commit: b, ttl: uint64([]int{0, 3, 10, 100}[c.Rng.Intn(4)])}
+		// ttl: none, small, large, and so large that start+ttl wraps mod 2^64 (to 0, to a small
+		// value below the start ts, to start-1)
+		p := txnPlan{start: a, commit: b, ttl: []uint64{0, 3, 10, 100, 0 - a, 0 - a + 5, math.MaxUint64, 1 << 63}[c.Rng.Intn(8)]}
 		nk := 1 + c.Rng.Intn(len(keys))
 		for _, ki := range c.Rng.Perm(len(keys))[:nk] {
 			op := []int{0, 0, 0, 1, 2}[c.Rng.Intn(5)]
@@ -445,20 +529,23 @@ func subset(c *corr.Ctx, xs []string) []string {
 // eventsOf lists the protocol events of one transaction (the pool the orderings are drawn from).
 func eventsOf(c *corr.Ctx, p txnPlan, keys []string) []Req {
 	ks := mutKeys(p.muts)
-	current := []uint64{p.start, p.start + p.ttl, p.start + p.ttl + 1, 45}[c.Rng.Intn(4)]
-	caller := []uint64{0, p.start + 1, p.commit, p.commit + 1, 44}[c.Rng.Intn(5)]
+	// current ts below, at and above the lock's start ts and its expiry point (ts+ttl in uint64
+	// arithmetic: with a wrapping ttl the expiry point lies *below* the start ts)
+	expiry := p.start + p.ttl
+	current := []uint64{0, p.start - 1, p.start, p.start + 1, expiry - 1, expiry, expiry + 1, 45, math.MaxUint64}[c.Rng.Intn(9)]
+	caller := []uint64{0, p.start - 1, p.start + 1, p.commit, p.commit + 1, 44, math.MaxUint64}[c.Rng.Intn(7)]
 	return []Req{
-		{T: "pw", Muts: p.muts, Primary: p.primary, Start: p.start, TTL: p.ttl, MinC: []uint64{0, 0, 0, p.commit, p.commit + 1}[c.Rng.Intn(5)]},
-		{T: "cm", Keys: subset(c, ks), Start: p.start, Commit: p.commit},
-		{T: "rb", Keys: subset(c, ks), Start: p.start},
-		{T: "rs", Keys: subset(c, keys), Start: p.start, Commit: p.commit},
-		{T: "rs", Keys: subset(c, keys), Start: p.start},
-		{T: "ck", Primary: p.primary, Start: p.start, Current: current, Caller: caller, RB: c.Rng.Intn(2) == 0},
+		{T: "pw", Muts: p.muts, Primary: p.primary, Start: U64(p.start), TTL: U64(p.ttl), MinC: U64([]uint64{0, 0, 0, p.commit, p.commit + 1}[c.Rng.Intn(5)])},
+		{T: "cm", Keys: subset(c, ks), Start: U64(p.start), Commit: U64(p.commit)},
+		{T: "rb", Keys: subset(c, ks), Start: U64(p.start)},
+		{T: "rs", Keys: subset(c, keys), Start: U64(p.start), Commit: U64(p.commit)},
+		{T: "rs", Keys: subset(c, keys), Start: U64(p.start)},
+		{T: "ck", Primary: p.primary, Start: U64(p.start), Current: U64(current), Caller: U64(caller), RB: c.Rng.Intn(2) == 0},
 	}
 }
 
 func genRead(c *corr.Ctx, keys []string) Req {
-	v := uint64(c.Rng.Intn(46))
+	v := U64(c.Rng.Intn(46))
 	if c.Rng.Intn(3) == 0 {
 		return Req{T: "scan", Key: []string{"", keys[0], keys[1], keys[2], "b", "l"}[c.Rng.Intn(6)], Incl: c.Rng.Intn(3) != 0,
 			Limit: uint32([]int{0, 1, 2, 3, 10}[c.Rng.Intn(5)]), Version: v}
@@ -527,6 +614,8 @@ func exhaustiveCases(depth int) []PercoDesc {
 		{T: "rs", Keys: []string{"b", "a"}, Start: 10},
 		{T: "ck", Primary: "a", Start: 10, Current: 15, Caller: 22, RB: true},
 		{T: "ck", Primary: "a", Start: 10, Current: 12, Caller: 22, RB: false},
+		{T: "ck", Primary: "a", Start: 10, Current: 5, Caller: 5, RB: false},
+		{T: "ck", Primary: "a", Start: 10, Current: 10, Caller: 0, RB: true},
 		{T: "pw", Muts: []Mut{{Op: 1, Key: "b"}}, Primary: "b", Start: 12, TTL: 0},
 		{T: "cm", Keys: []string{"b"}, Start: 12, Commit: 14},
 	}
@@ -550,6 +639,32 @@ func exhaustiveCases(depth int) []PercoDesc {
 		}
 	}
 	rec(nil, depth)
+	return out
+}
+
+// ttlGridCases: one lock (start 10) for every ttl in {0, 1, 5, 2^63, 2^64-10 (expiry point 0),
+// 2^64-7 (expiry point 3, below the start ts), 2^64-1 (expiry point 9)} and a CheckTxnStatus at every
+// current ts in {0, 2, 3, 9, 10, 11, 14, 15, 16, 2^63+9, 2^63+10, 2^64-1}, with and without a caller ts;
+// then the lock is read back and the key is read.
+func ttlGridCases() []PercoDesc {
+	var out []PercoDesc
+	ttls := []uint64{0, 1, 5, 1 << 63, math.MaxUint64 - 9, math.MaxUint64 - 6, math.MaxUint64}
+	currents := []uint64{0, 2, 3, 9, 10, 11, 14, 15, 16, 1<<63 + 9, 1<<63 + 10, math.MaxUint64}
+	for _, ttl := range ttls {
+		for _, cur := range currents {
+			for _, caller := range []uint64{0, cur} {
+				out = append(out, PercoDesc{Keys: []string{"a", "b", "c"}, Gen: "ttlgrid", Reqs: []Req{
+					{T: "pw", Muts: []Mut{{Op: 0, Key: "a", Val: "base"}}, Primary: "a", Start: 2, TTL: 5},
+					{T: "cm", Keys: []string{"a"}, Start: 2, Commit: 4},
+					{T: "pw", Muts: []Mut{{Op: 0, Key: "a", Val: "new"}}, Primary: "a", Start: 10, TTL: U64(ttl)},
+					{T: "ck", Primary: "a", Start: 10, Current: U64(cur), Caller: U64(caller), RB: true},
+					{T: "get", Key: "a", Version: 9}, {T: "get", Key: "a", Version: 30},
+					{T: "cm", Keys: []string{"a"}, Start: 10, Commit: 20},
+					{T: "get", Key: "a", Version: 30},
+				}})
+			}
+		}
+	}
 	return out
 }
 
@@ -583,15 +698,18 @@ func runPerco(c *corr.Ctx) error {
 		ex := exhaustiveCases(depth)
 		descs = append(descs, ex...)
 		c.CountN("exhaustive_cases", len(ex))
+		grid := ttlGridCases()
+		descs = append(descs, grid...)
+		c.CountN("ttl_grid_cases", len(grid))
 		n := c.Scale(700, 12000)
 		for i := 0; i < n; i++ {
 			descs = append(descs, genInterleaved(c))
 		}
 		c.CountN("interleaved_cases", n)
 		c.Meta("exhaustive", true)
-		c.Meta("exhaustive_scope", fmt.Sprintf("every sequence of length <= %d over 9 protocol events (prewrite put+lock-only, commit, rollback, resolve-commit, resolve-rollback, check-txn-status expired / alive, competing delete txn prewrite + commit) of a transaction 10..20 above a committed base value, followed by GET at 9/15/25, 13/25 and two SCANs", depth))
+		c.Meta("exhaustive_scope", fmt.Sprintf("every sequence of length <= %d over 11 protocol events (prewrite put+lock-only, commit, rollback, resolve-commit, resolve-rollback, check-txn-status expired / alive / from a caller below the lock's start ts / at the start ts, competing delete txn prewrite + commit) of a transaction 10..20 above a committed base value, followed by GET at 9/15/25, 13/25 and two SCANs", depth))
 	}
-	c.Meta("rule", "request sequences over 3 keys (3 key alphabets incl. prefix-related keys and 0x00/0xff bytes) and 2-4 transactions with distinct timestamps in 1..40: random interleavings of prewrite / commit / rollback / resolve(commit|rollback) / check-txn-status (current ts before, at and after ttl expiry; caller ts below and above commit) with duplicates and missing prewrites, put / delete / lock-only mutations, GET and SCAN (start key, include flag, limit 0..10) at random versions between the events; every step compares the canonicalised response and reader.GetLock of all 3 keys with the model and with the protocol specification. non-trivial = the case contains at least one key error response and one read returning a value")
+	c.Meta("rule", "request sequences over 3 keys (3 key alphabets incl. prefix-related keys and 0x00/0xff bytes) and 2-4 transactions with distinct timestamps in 1..40: random interleavings of prewrite / commit / rollback / resolve(commit|rollback) / check-txn-status (current ts 0, below / at / above the lock's start ts, before / at / after the expiry point, 2^64-1; ttl 0, small, 2^63 and values for which start+ttl wraps mod 2^64; caller ts below and above commit and 2^64-1; plus a ttl x current-ts grid of 168 cases) with duplicates and missing prewrites, put / delete / lock-only mutations, GET and SCAN (start key, include flag, limit 0..10) at random versions between the events; every step compares the canonicalised response and reader.GetLock of all 3 keys with the model and with the protocol specification. non-trivial = the case contains at least one key error response and one read returning a value")
 
 	type res struct {
 		term string
